@@ -944,6 +944,8 @@ func init() {
 				mk("doc-2t-stmt-b2", 2, map[string]interface{}{"type": "doc", "threads": 2, "stmt": true}),
 				mkd("list-positional-3t-remote-b3", 3, map[string]interface{}{"type": "list", "threads": 3, "remote": true}),
 				mkd("docarr-positional-3t-remote-b3", 3, map[string]interface{}{"type": "docarr", "threads": 3, "remote": true}),
+				mkd("list-ranges-3t-remote-b3", 3, map[string]interface{}{"type": "list", "threads": 3, "remote": true, "many": true}),
+				mkd("docarr-ranges-3t-remote-b3", 3, map[string]interface{}{"type": "docarr", "threads": 3, "remote": true, "many": true}),
 				mks("sync-counter-2u-2s-b3", 3, map[string]interface{}{"type": "counter", "users": 2, "syncs": 2, "pending": 1}),
 				mks("sync-counter-2u-1s-stmt-b2", 2, map[string]interface{}{"type": "counter", "users": 2, "syncs": 1, "pending": 1, "stmt": true}),
 				mks("sync-list-1u-2s-stmt-b2", 2, map[string]interface{}{"type": "list", "users": 1, "syncs": 2, "pending": 1, "stmt": true}),
@@ -966,6 +968,8 @@ func init() {
 				mkd("list-positional-3t-remote-pack-b4", 4, map[string]interface{}{"type": "list", "threads": 3, "remote": true, "packer": true}),
 				mkd("docarr-positional-3t-remote-pack-b4", 4, map[string]interface{}{"type": "docarr", "threads": 3, "remote": true, "packer": true}),
 				mkd("list-positional-3t-remote-stmt-b2", 2, map[string]interface{}{"type": "list", "threads": 3, "remote": true, "stmt": true}),
+				mkd("list-ranges-3t-remote-pack-b4", 4, map[string]interface{}{"type": "list", "threads": 3, "remote": true, "packer": true, "many": true}),
+				mkd("docarr-ranges-3t-remote-pack-b4", 4, map[string]interface{}{"type": "docarr", "threads": 3, "remote": true, "packer": true, "many": true}),
 				mks("sync-counter-3u-2s-b4", 4, map[string]interface{}{"type": "counter", "users": 3, "syncs": 2, "pending": 1}),
 				mks("sync-list-3u-2s-b3", 3, map[string]interface{}{"type": "list", "users": 3, "syncs": 2, "pending": 2}),
 				mks("sync-counter-2u-2s-stmt-b2", 2, map[string]interface{}{"type": "counter", "users": 2, "syncs": 2, "pending": 1, "stmt": true}),
